@@ -41,6 +41,7 @@ def gen_copy_case(r):
     kind = r.pick(['eq', 'eq', 'heq'])
     n = r.range(2, 4)
     alive = [True] + [False] * (n - 1)
+    held = {i: [] for i in range(n)}       # guards in flight per object (stack of w)
     main = []
     for _ in range(r.range(2, 6)):
         main.append(['append', '0', str(r.below(3)), str(r.range(1, 9))])
@@ -56,10 +57,24 @@ def gen_copy_case(r):
             opts.append(('addfilter', 4))
         if dead:
             opts += [('copyctor', 14), ('movector', 12), ('new', 3)]
-        if len(live) > 1:
+        if len(live) > 1 and any(not held[i] for i in live):
             opts.append(('destroy', 4))
+        opts.append(('guardbegin', 9))
+        if any(held[i] for i in live):
+            opts.append(('guardend', 7))
         op = r.weighted(opts)
         o = r.pick(live)
+        if op == 'destroy':
+            o = r.pick([i for i in live if not held[i]])
+        if op == 'guardbegin':
+            w = r.pick([0, 1, 1])
+            held[o].append(w)
+            main.append(['guardbegin', str(o), str(w)])
+            continue
+        if op == 'guardend':
+            o = r.pick([i for i in live if held[i]])
+            main.append(['guardend', str(o), str(held[o].pop())])
+            continue
         if op == 'append':
             main.append(['append', str(o), str(r.below(3)), str(r.range(1, 9))])
         elif op == 'addfilter':
@@ -85,6 +100,9 @@ def gen_copy_case(r):
         elif op == 'destroy':
             alive[o] = False
             main.append(['destroy', str(o)])
+    for i in range(n):
+        while held[i]:
+            main.append(['guardend', str(i), str(held[i].pop())])
     for i in range(n):
         if alive[i]:
             main += [['emptyq', str(i)], ['process', str(i)], ['dispatch', str(i), '0', '1'], ['dispatch', str(i), '1', '2']]
@@ -141,7 +159,10 @@ def run_copy(ctx, proof_ok):
                 o = vlib.run_model('spec', t, driver='copy').get('0', ['error'])
                 if 'error' in o:
                     return False
-                return o != vlib.run_impl(binary, {'0': t}, ['0'], timeout=60).get('0', ['<missing>'])
+                im = vlib.run_impl(binary, {'0': t}, ['0'], timeout=60).get('0', ['<missing>'])
+                if any('harness-error' in l for l in im):
+                    return False          # the shrunk program misuses the harness (e.g. guardend without guardbegin)
+                return o != im
             cur = dict(case)
             changed = True
             tests = 0
